@@ -1192,7 +1192,7 @@ fn main() {
             configs.push(Part { name: "AB", cfg: Cfg { auto: true, bloom: 1 }, k: 2, depth: 4, extra: true, alphabet: &alphabet_a });
         } else {
             configs.push(Part { name: "A", cfg: auto, k: 2, depth: 4, extra: true, alphabet: &alphabet_a });
-            configs.push(Part { name: "B", cfg: bloom, k: 2, depth: 4, extra: true, alphabet: &alphabet });
+            configs.push(Part { name: "B", cfg: bloom, k: 2, depth: 4, extra: false, alphabet: &alphabet });
         }
     }
     if let Some(only) = &only {
@@ -1238,7 +1238,7 @@ fn main() {
         if c.name == "A" && (st.states < 200 || st.autos < 100 || st.auto_kinds < 3 || st.auto_purges < 20 || st.auto_nontrivial < 10 || st.mixed == 0) {
             vacuous.push(format!("A: too few states / auto-checkpoints / kinds of them / purges caused by them / non-trivial rollbacks to them / mixed retained sets ({} / {} / {} / {} / {} / {})", st.states, st.autos, st.auto_kinds, st.auto_purges, st.auto_nontrivial, st.mixed));
         }
-        if c.name == "B" && (st.states < 200 || st.nontrivial < 50 || st.nt_added == 0 || st.nt_removed == 0) {
+        if c.name == "B" && (st.states < 200 || st.nontrivial < 20 || st.nt_added == 0 || st.nt_removed == 0) {
             vacuous.push(format!("B: too few distinct states / non-trivial rollbacks ({} / {})", st.states, st.nontrivial));
         }
         rep.add("states", st.states);
